@@ -145,7 +145,12 @@ def build_harness(release=False):
         shutil.copy(lock_src, lock_dst)
     cmd = "timeout 1500 cargo build --offline" + (" --release" if release else "")
     rc, out = sh(cmd, cwd=os.path.join(VERIF, "harness"), timeout=1530)
-    errs = "\n".join(l for l in out.splitlines() if l.startswith("error") or "-->" in l)[-3000:]
+    lines = out.splitlines()
+    keep = []
+    for k, l in enumerate(lines):
+        if l.startswith("error"):
+            keep += lines[k:k + 8]
+    errs = "\n".join(keep)[-3000:]
     return rc == 0, errs if rc != 0 else ""
 
 def harness_bin(release=False):
